@@ -561,6 +561,8 @@ class Debian822(MutableMapping):
         """
         if data:
             text = None
+            # an empty file-like object has no text and no paragraph
+            paragraph = {}
             if isinstance(data, Mapping):
                 paragraph = {k.lower(): v for k, v in data.items()}
 
